@@ -41,7 +41,7 @@ CHECKS["C04"] = dict(
         "Python list reference; concurrency runs (thread and process workers, in_order true/false, max_concurrent, prebatch, randomised per-item delays) checked against the list reference; "
         "scheduler-driven runs of the real threads replayed step by step on the interleaving model ConcModel.v (Prefetcher, PinMemory's _pin_memory_loop as the same protocol with prefetch_factor 1, ParallelMapper in_order and unordered).",
    design="DESIGN.md 4 C04",
-   note="Trusted: Coq kernel + vm_compute; deterministic thread scheduler (harness/sched_threads.py) for the interleaving-level cases, delay jitter for the process-worker cases; harness user code. Interleaving-level theorems (every schedule without a reader-join timeout, every reachable state): C04_prefetcher_is_identity and C04_parallel_mapper_is_ordered_map (ParallelMapper in_order, thread workers: delivered items = map_fn over the source prefix, in order, each once; index discipline C04_parallel_mapper_index_discipline). in_order=False and process workers are checked by correspondence+oracle only.",
+   note="Trusted: Coq kernel + vm_compute; deterministic thread scheduler (harness/sched_threads.py) for the interleaving-level cases, delay jitter for the process-worker cases; harness user code. Interleaving-level theorems (every schedule without a reader-join timeout, every reachable state): C04_prefetcher_is_identity and C04_parallel_mapper_is_ordered_map (ParallelMapper in_order, thread workers: delivered items = map_fn over the source prefix, in order, each once; index discipline C04_parallel_mapper_index_discipline). in_order=False: C04_unordered_values_conserved / _no_invention / _multiset_when_drained (value-counting invariant, ConcPMU.v). Process workers are checked by jitter runs + oracle only.",
    technique="Coq proof over hand-written Gallina model + lockstep correspondence (vm_compute) + direct oracle")
 CHECKS["C13"] = dict(
    text="Loader front-end (flag machine _it/_iter_for_state_dict/_next_iter_state_dict, LoaderIterator look-ahead) inside the Gallina node model; theorems in Properties_C13.v. "
